@@ -45,6 +45,7 @@ var Prop = &engine.Prop{
 		{Name: "priq-stress", Quick: 24, Thorough: 1800, Repeat: 20, Fn: priqStressCase},
 		{Name: "priq-race", Quick: 160, Thorough: 14400, Repeat: 20, Fn: priqRaceCase},
 		{Name: "cond-stress", Quick: 24, Thorough: 1800, Repeat: 20, Fn: condStressCase},
+		{Name: "close-race", Quick: 64, Thorough: 4800, Repeat: 20, Fn: closeRaceCase},
 	},
 	Floors: map[string]int64{
 		"parked_consumer_observations": 1000,
@@ -55,6 +56,7 @@ var Prop = &engine.Prop{
 		"priq_invariant_checks":        5000,
 		"priq_stress_items":            1000,
 		"priq_race_rounds":             10000,
+		"close_race_rounds":            5000,
 		"cond_stress_items":            1000,
 	},
 }
@@ -70,14 +72,31 @@ type cq interface {
 	DropsAfterClose() bool // Push after Close reports nothing
 }
 
+// nilItem stands for the untyped nil interface as a queue item (every pipe queue accepts it).
+const nilItem = -1
+
+func boxItem(v int) interface{} {
+	if v == nilItem {
+		return nil
+	}
+	return v
+}
+
+func unboxItem(v interface{}) int {
+	if v == nil {
+		return nilItem
+	}
+	return v.(int)
+}
+
 type pipeQ struct{ x *q.Q }
 
 func (p pipeQ) Name() string { return "pipe/q.Q" }
 func (p pipeQ) Add(v int, ctrl, prior bool) error {
 	if prior {
-		return p.x.AddPriorReq(v)
+		return p.x.AddPriorReq(boxItem(v))
 	}
-	return p.x.AddReq(v)
+	return p.x.AddReq(boxItem(v))
 }
 func (p pipeQ) Pop(anyway bool) (int, bool) {
 	var v interface{}
@@ -90,7 +109,7 @@ func (p pipeQ) Pop(anyway bool) (int, bool) {
 	if err != nil {
 		return 0, false
 	}
-	return v.(int), true
+	return unboxItem(v), true
 }
 func (p pipeQ) Close()                 { p.x.Close() }
 func (p pipeQ) TryClose() (bool, bool) { return false, false }
@@ -102,9 +121,9 @@ type asyncQ struct{ x *async.Q }
 func (p asyncQ) Name() string { return "pipe/async.Q" }
 func (p asyncQ) Add(v int, ctrl, prior bool) error {
 	if prior {
-		return p.x.AddPrior(v)
+		return p.x.AddPrior(boxItem(v))
 	}
-	return p.x.Add(v)
+	return p.x.Add(boxItem(v))
 }
 func (p asyncQ) Pop(anyway bool) (int, bool) {
 	var v interface{}
@@ -117,7 +136,7 @@ func (p asyncQ) Pop(anyway bool) (int, bool) {
 	if err != nil {
 		return 0, false
 	}
-	return v.(int), true
+	return unboxItem(v), true
 }
 func (p asyncQ) Close()                 { p.x.Close() }
 func (p asyncQ) TryClose() (bool, bool) { return false, false }
@@ -129,9 +148,9 @@ type muxQ struct{ x *mux.Q }
 func (p muxQ) Name() string { return "pipe/mux.Q" }
 func (p muxQ) Add(v int, ctrl, prior bool) error {
 	if prior {
-		return p.x.AddPriorReq(v)
+		return p.x.AddPriorReq(boxItem(v))
 	}
-	return p.x.AddReq(v)
+	return p.x.AddReq(boxItem(v))
 }
 func (p muxQ) Pop(anyway bool) (int, bool) {
 	var v interface{}
@@ -144,7 +163,7 @@ func (p muxQ) Pop(anyway bool) (int, bool) {
 	if err != nil {
 		return 0, false
 	}
-	return v.(int), true
+	return unboxItem(v), true
 }
 func (p muxQ) Close()                 { p.x.Close() }
 func (p muxQ) TryClose() (bool, bool) { return false, false }
@@ -157,13 +176,13 @@ func (p mQ) Name() string { return "pipe/mq.MQ" }
 func (p mQ) Add(v int, ctrl, prior bool) error {
 	switch {
 	case ctrl && prior:
-		return p.x.AddPriorCtrl(v)
+		return p.x.AddPriorCtrl(boxItem(v))
 	case ctrl:
-		return p.x.AddCtrl(v)
+		return p.x.AddCtrl(boxItem(v))
 	case prior:
-		return p.x.AddPriorReq(v)
+		return p.x.AddPriorReq(boxItem(v))
 	}
-	return p.x.AddReq(v)
+	return p.x.AddReq(boxItem(v))
 }
 func (p mQ) Pop(anyway bool) (int, bool) {
 	var v interface{}
@@ -176,7 +195,7 @@ func (p mQ) Pop(anyway bool) (int, bool) {
 	if err != nil {
 		return 0, false
 	}
-	return v.(int), true
+	return unboxItem(v), true
 }
 func (p mQ) Close()                 { p.x.Close() }
 func (p mQ) TryClose() (bool, bool) { return true, p.x.TryClose() }
@@ -240,6 +259,7 @@ func parkedCase(k *engine.Case) {
 	closedDefinitely := false
 	closeIssued := false
 	nextVal := 1
+	usedNil := false
 
 	spawnConsumer := func(gate <-chan struct{}) *consumer {
 		c := &consumer{id: len(cons), anyway: r.Intn(2) == 0}
@@ -364,6 +384,11 @@ func parkedCase(k *engine.Case) {
 			ctrl, prior := qu.HasCtrl() && r.Intn(2) == 0, r.Intn(4) == 0
 			v := nextVal
 			nextVal++
+			if !usedNil && !qu.DropsAfterClose() && r.Intn(6) == 0 {
+				v, usedNil = nilItem, true // the untyped nil is an item like any other
+				nextVal--
+				k.Count("nil_items_added", 1)
+			}
 			k.Logf("step %d: add %d ctrl=%v prior=%v", s, v, ctrl, prior)
 			if np > 0 {
 				k.Count("adds_with_parked_consumers", 1)
@@ -874,4 +899,107 @@ func priqRaceCase(k *engine.Case) {
 	if n := bad.Load(); n > 0 {
 		k.Fail("priq-channel-not-readable", "in %d of %d pop/push race rounds the queue ended non-empty with no call in progress and no outstanding signal, but the wait channel was not readable; first: %v", n, pairs*rounds, firstBad.Load())
 	}
+}
+
+// ---------------------------------------------------------------- close racing with arriving consumers
+
+// closeRaceCase: in every round a few consumers *enter* Pop/PopAnyway at the same moment as
+// one Close (and sometimes one add) on a fresh queue. Whatever the interleaving, the queue
+// ends closed, so every consumer must return; one that went to sleep just after the wake-up
+// was sent (a close that does not synchronise with the waiters) stays parked. Rounds are
+// joined through a WaitGroup; only when a round does not finish is the quiescence detector
+// consulted: parked consumers at a fixed point are the violation, anything else keeps waiting.
+func closeRaceCase(k *engine.Case) {
+	r := k.R
+	procs := []int{2, 4, 8, 16}[r.Intn(4)]
+	old := runtime.GOMAXPROCS(procs)
+	defer runtime.GOMAXPROCS(old)
+	rounds := 400
+	consumers := 2 + r.Intn(5)
+	withAdd := r.Intn(2) == 0
+	sel := r.Intn(5)
+	mk := func() cq {
+		switch sel {
+		case 0:
+			return pipeQ{q.NewQ()}
+		case 1:
+			return asyncQ{async.NewQ(0)}
+		case 2:
+			return muxQ{mux.NewQ(0)}
+		case 3:
+			return mQ{mq.NewMQ()}
+		default:
+			return syncQ{syncq.NewSyncQueue()}
+		}
+	}
+	k.Logf("close race on %s: %d consumers enter Pop while Close%s runs, %d rounds, gomaxprocs=%d", mk().Name(), consumers, map[bool]string{true: " and one add", false: ""}[withAdd], rounds, procs)
+	k.Nontrivial()
+	x := uint64(r.Int63()) | 1
+	next := func() uint64 { x ^= x << 13; x ^= x >> 7; x ^= x << 17; return x }
+	for round := 0; round < rounds; round++ {
+		qu := mk()
+		start := make(chan struct{})
+		var wg sync.WaitGroup
+		var got atomic.Int64
+		spin := func(n int) {
+			for i := 0; i < n; i++ {
+				_ = i
+			}
+		}
+		for c := 0; c < consumers; c++ {
+			anyway := c%2 == 0
+			sp := int(next() % 300)
+			wg.Add(1)
+			go func() {
+				defer wg.Done()
+				<-start
+				spin(sp)
+				if _, ok := qu.Pop(anyway); ok {
+					got.Add(1)
+				}
+			}()
+		}
+		spc := int(next() % 300)
+		wg.Add(1)
+		go func() { defer wg.Done(); <-start; spin(spc); qu.Close() }()
+		if withAdd {
+			spa := int(next() % 300)
+			wg.Add(1)
+			go func() { defer wg.Done(); <-start; spin(spa); qu.Add(7, false, false) }()
+		}
+		done := make(chan struct{})
+		go func() { wg.Wait(); close(done) }()
+		close(start)
+		finished := false
+		for tries := 0; !finished; tries++ {
+			select {
+			case <-done:
+				finished = true
+			case <-time.After(2 * time.Second):
+				// not a verdict by itself: ask the quiescence detector
+				if Q.IsQuiet() {
+					time.Sleep(20 * time.Millisecond)
+					if Q.IsQuiet() {
+						select {
+						case <-done:
+							finished = true
+						default:
+							k.Count("close_race_rounds", int64(round))
+							k.Fail("parked-after-close", "round %d: Close() returned, but consumer(s) that entered Pop at the same moment are parked for ever at a quiescent fixed point: %v", round, Q.Describe())
+							return
+						}
+					}
+				}
+				if tries > 60 {
+					k.Inconclusive("close-race round did not finish within the guard time")
+					return
+				}
+			}
+		}
+		if got.Load() > 1 {
+			k.Fail("duplicate-item", "round %d: one item was added but %d consumers received an item", round, got.Load())
+			return
+		}
+	}
+	k.Count("close_race_rounds", int64(rounds))
 }
